@@ -89,6 +89,13 @@ def run(ctx):
                 cases.append(mk(eng, 6, big, k, maxc))
                 ctx.count('large-scale distance at the radius: %s' % eng)
             cases.append(mk('symdel', 6, big[:4], k, maxc, seqs2=big[2:]))
+    # one residue more than 255 times in a sequence: the composition counts the kdtree pre-filter works on do not wrap (seeded change
+    # C14-r8m1: counts held in uint8)
+    longs = ['A' * 257, 'A' * 258, 'A' * 256 + 'C', 'C' + 'A' * 257, 'CAF', 'A' * 255]
+    for eng in ('kdtree', 'symdel'):
+        for which, maxc in ((0, None), (1, 3), (3, 1)):
+            cases.append(mk(eng, which, longs, 1, maxc))
+            ctx.count('one residue more than 255 times: %s' % eng)
     # via the algorithm-mirroring models
     for t in range(8 if ctx.quick else 60):
         which, k, maxc = rng.randrange(6), rng.choice([1, 2]), rng.choice(radii)
